@@ -35,6 +35,8 @@ use super::{PartialDate, ZonedDateTime};
 mod era;
 mod types;
 
+#[cfg(feature = "verif_hooks")]
+pub(crate) use types::Era;
 pub(crate) use types::ResolutionType;
 pub use types::{MonthCode, ResolvedCalendarFields};
 
